@@ -27,6 +27,14 @@ REQUIRED = ['clustering_coef_bu/values', 'clustering_coef_bd/values', 'clusterin
 CASE_TIMEOUT = {'quick': 30.0, 'thorough': 180.0}
 
 
+
+def _cc_und(rs, n, binary=False, p=.15):
+    A = np.triu((rs.rand(n, n) < p).astype(float), 1)
+    A[np.arange(n - 1), np.arange(1, n)] = 1      # a spanning path keeps it connected
+    W = A if binary else A * (rs.rand(n, n) * .9 + .1)
+    return W + W.T
+
+
 def cases(tier, seed):
     thorough = tier == 'thorough'
     out = []
@@ -58,6 +66,7 @@ def cases(tier, seed):
     for n, p, d in ((64, .9, False), (72, .85, True)) + (((130, .95, False), (100, .6, True)) if thorough else ()):
         out.append({'g': ['er', n, p, d, seed + n], 'directed': d, 'ws': seed + n, 'schemes': ['bin'], 'bigdense': True})
     out.append({'kind': 'degenerate', 'g': ['named', 'path', 2], 'directed': False, 'ws': 0, 'schemes': []})
+    out.append({'kind': 'concurrent', 'g': ['named', 'path', 2], 'directed': False, 'ws': seed, 'schemes': [], 'n': 220 if tier == 'thorough' else 120})
     return out
 
 
@@ -67,6 +76,10 @@ def exact_zero_ok(C, mask):
 
 
 def run(case, bct, REC):
+    if case.get('kind') == 'concurrent':
+        from .common import concurrent_callers_agree
+        REC.tag(PROP, 'exec')
+        return concurrent_callers_agree(REC, PROP, bct, [('clustering_coef_wu', lambda rs, n: (_cc_und(rs, n),)), ('clustering_coef_wd', lambda rs, n: (_cc_und(rs, n),)), ('transitivity_wd', lambda rs, n: (_cc_und(rs, n),)), ('transitivity_wu', lambda rs, n: (_cc_und(rs, n),)), ('clustering_coef_bu', lambda rs, n: (_cc_und(rs, n, True),)), ('transitivity_bd', lambda rs, n: (_cc_und(rs, n, True),))], case['n'], case['ws'])
     if case.get('kind') == 'degenerate':
         from .common import degenerate_sizes
         REC.tag(PROP, 'exec')
